@@ -135,9 +135,15 @@ func clientMatches(cf *config, rq request) bool {
 		return netip.MustParsePrefix("10.0.0.0/24").Contains(ip)
 	case "clientid":
 		return rq.CID
+	case "ip6zone":
+		// The client is identified by a link-local address with a zone, the form
+		// the listener reports for such a peer.
+		return ip.WithZone("") == netip.MustParseAddr(zonedAddr).WithZone("")
 	}
 	return false
 }
+
+const zonedAddr = "fe80::1ff:fe23:4567:890a%eth0"
 
 func (e *env) runConfig(cf *config, reqs []request) {
 	c := e.c
@@ -196,6 +202,8 @@ func (e *env) runConfig(cf *config, reqs []request) {
 			cs.IDs = []string{macStr}
 		case "clientid":
 			cs.IDs = []string{"cid-a"}
+		case "ip6zone":
+			cs.IDs = []string{zonedAddr}
 		}
 		sp.Clients = []srv.ClientSpec{cs}
 		if cf.Client == "cidr" {
@@ -357,7 +365,7 @@ func (macDHCP) MACByIP(ip netip.Addr) net.HardwareAddr {
 func allRequests() []request {
 	var out []request
 	for _, n := range []string{"ignored.test", "IGNORED.Test", "sub.ignored.test", "other.test"} {
-		for _, a := range []string{"10.0.0.1", "10.0.0.77", "192.168.5.5", "2001:db8:aa:bb:1234:5678:9abc:def0", "::ffff:10.0.0.1"} {
+		for _, a := range []string{"10.0.0.1", "10.0.0.77", "192.168.5.5", "2001:db8:aa:bb:1234:5678:9abc:def0", "::ffff:10.0.0.1", zonedAddr} {
 			for _, cid := range []bool{false, true} {
 				out = append(out, request{Name: n, Qtype: "A", Addr: a, CID: cid})
 			}
@@ -382,7 +390,7 @@ func run(c *lib.Ctx) {
 	}
 	for _, g := range igs {
 		for _, anon := range []string{"off", "on", "on-by-api"} {
-			for _, cl := range []string{"none", "ip", "cidr", "mac", "clientid"} {
+			for _, cl := range []string{"none", "ip", "cidr", "mac", "clientid", "ip6zone"} {
 				for _, flags := range [][2]bool{{false, false}, {true, false}, {false, true}, {true, true}} {
 					if cl == "none" && (flags[0] || flags[1]) {
 						continue
